@@ -6,6 +6,7 @@ form of the fragment theorem (`nginxEvalConf (gen s) q = routeF s q` on probes) 
 (`routeF` against `Spec.GatewayAPI.route strict`). Core-only; not itself subject of theorems.
 -/
 import NGF.Model.Pipeline
+import NGF.Model.PipelineHyp
 import NGF.Model.C02Judge
 
 namespace NGF.PipelineTie
@@ -234,13 +235,22 @@ structure TieResult where
   inFragment : Bool := false
   why : String := ""
   noShadow : Bool := false
+  /-- the two scenario side conditions of `route_refines_spec_fragment` beyond `inFragment`/`noShadow` -/
+  namesPlain : Bool := false
+  routesHaveRules : Bool := false
   confEqual : Bool := false
   confDiff : String := ""
   probes : Nat := 0
+  /-- probes on which the theorem's hypotheses hold (scenario AND request): the equation is evaluated on these -/
+  thmProbes : Nat := 0
+  /-- probes of a scenario inside the theorem's hypotheses that `reqOK` excludes (header value with a comma, …) -/
+  reqExcluded : Nat := 0
   thmFail : Option String := none
   specFail : Option String := none
 
-/-- everything the `pipeline` driver mode reports for one case -/
+/-- everything the `pipeline` driver mode reports for one case. The equation `nginxEvalConf (gen s) q = routeF s q` is
+evaluated exactly where `route_refines_spec_fragment` claims it: `refineOK fs` (= inFragment ∧ noShadow ∧ namesPlain ∧
+routesHaveRules) and `reqOK q`. -/
 def tie (cfg : NGF.NginxEval.Config) (s : SScenario) (cap : Nat) : TieResult :=
   match toFragment s with
   | .error e => { why := e }
@@ -249,20 +259,25 @@ def tie (cfg : NGF.NginxEval.Config) (s : SScenario) (cap : Nat) : TieResult :=
     else
       let model := Pipeline.gen fs
       let ns := Pipeline.noShadow model
+      let np := Pipeline.namesPlain fs
+      let rr := Pipeline.routesHaveRules fs
+      let hyp := Pipeline.refineOK fs
       let (eq, diff) := match abstractConf cfg with
         | .error e => (false, "real configuration not abstractable: " ++ e)
         | .ok real => match confDiff real model with
           | none => (true, "")
           | some d => (false, d)
       let probes := (NGF.C02.probes s cap).filter fun r => !r.tls
-      let (tf, sf) := probes.foldl (fun (acc : Option String × Option String) r =>
+      let (tf, sf, nthm, nex) := probes.foldl (fun (acc : Option String × Option String × Nat × Nat) r =>
         let q := toReq r
         let n := Pipeline.nginxEvalConf model q
         let o := Pipeline.routeF fs q
         let full := (NGF.Spec.GatewayAPI.route NGF.Spec.GatewayAPI.strict s r).outcome
-        let t := if acc.1.isNone && ns && n != o then some s!"{NGF.C02.showReq r} :: nginxEvalConf(gen)={repr n} :: routeF={repr o}" else acc.1
-        let sp := if acc.2.isNone && !specAgree r o full then some s!"{NGF.C02.showReq r} :: routeF={repr o} :: oracle={repr full}" else acc.2
-        (t, sp)) (none, none)
-      { inFragment := true, noShadow := ns, confEqual := eq, confDiff := diff, probes := probes.length, thmFail := tf, specFail := sf }
+        let inThm := hyp && Pipeline.reqOK q
+        let t := if acc.1.isNone && inThm && n != o then some s!"{NGF.C02.showReq r} :: nginxEvalConf(gen)={repr n} :: routeF={repr o}" else acc.1
+        let sp := if acc.2.1.isNone && !specAgree r o full then some s!"{NGF.C02.showReq r} :: routeF={repr o} :: oracle={repr full}" else acc.2.1
+        (t, sp, acc.2.2.1 + (if inThm then 1 else 0), acc.2.2.2 + (if hyp && !Pipeline.reqOK q then 1 else 0))) (none, none, 0, 0)
+      { inFragment := true, noShadow := ns, namesPlain := np, routesHaveRules := rr, confEqual := eq, confDiff := diff,
+        probes := probes.length, thmProbes := nthm, reqExcluded := nex, thmFail := tf, specFail := sf }
 
 end NGF.PipelineTie
